@@ -60,6 +60,8 @@ def rule_trigger_join(ctx: Ctx, prog: Program) -> None:
     n_total = 0
     for a in init_analyses(prog):
         n_total += _trigger_join_one(ctx, prog, a)
+        n_own = _trigger_own_call(ctx, prog, a)
+        ctx.floor("R-TRIGGER-JOIN:own-call", n_own, 1)
     ctx.floor("R-TRIGGER-JOIN:stores", n_total, 1)
 
 
@@ -116,6 +118,62 @@ def _trigger_join_one(ctx: Ctx, prog: Program, a: InitAnalysis) -> int:
             else:
                 ctx.violation("R-TRIGGER-JOIN", fn.path, "Problem.init", "triggers-index", f"{fn.path}:{e.line}",
                               f"the wake-up table is indexed by {show_val(dom)}, not by the shared-domain index of the variable (dom_indices[var])")
+    return n
+
+
+def _iterates_constraints(L: LoopSummary) -> bool:
+    """the loop runs over the list of constraints itself (for .. in [enumerate(]self.propagators[)]), not over a component of one constraint"""
+    iv = L.iter_value
+    inner = iv.inner if isinstance(iv, EnumVal) else iv
+    v = as_view(inner) if inner is not None else None
+    return isinstance(v, View) and v.root.split(".")[-1] == "propagators" and not v.idx
+
+
+def _trigger_own_call(ctx: Ctx, prog: Program, a: InitAnalysis) -> int:
+    """Every iteration of the loop over the constraints that fills the constraint's column of the wake-up table has itself asked the trigger
+    function of THIS constraint's algorithm, with THIS constraint's arity and parameters, and what it stores comes from that answer.  The
+    events a constraint must be woken for depend on its parameters (the sign of each coefficient for the linear inequalities): an answer
+    kept from another constraint of the same kind (a memo keyed by algorithm and arity, a vector computed before the loop) makes the
+    constraint watch the bounds the other one needed."""
+    fn = a.fn
+    n = 0
+    for L in a.loops:
+        idx = show_val(L.index) if L.index is not None else None
+        for bp in L.paths:
+            nested = [e for e in bp.events if e.kind == "loop" and e.loop is not L and _stores(e.loop, "triggers")]
+            own = [e for e in bp.events if e.kind == "store" and e.root and (e.root == "triggers" or e.root.endswith(".triggers")) and len(e.idx) == 2 and _event_in_own_body(L, bp, e)]
+            stores = [(b2, s) for e in nested for (b2, s) in _stores(e.loop, "triggers")] + [(bp, s) for s in own]
+            if not stores or idx is None or not _iterates_constraints(L):
+                continue
+            icalls = [e for e in bp.events if e.kind == "icall" and "TRIGGERS" in (e.name or "")]
+            for b2, st in stores:
+                n += 1
+                line = st.line
+                v = st.value
+                vtxt = show_val(v) if not isinstance(v, View) else repr(v)
+                mine = [e for e in icalls if e.ret is not None and repr(e.ret) in vtxt]
+                if not mine:
+                    ctx.violation("R-TRIGGER-JOIN", fn.path, "Problem.init", "triggers-not-own-call", f"{fn.path}:{line}",
+                                  "an iteration of the loop over the constraints stores into its column of the wake-up table a value that is not the answer of "
+                                  "the trigger function called in that iteration"
+                                  + (" (on this path the trigger function is not called at all: the answer is reused from another constraint)" if not icalls else "")
+                                  + ": the events a constraint needs depend on its own parameters (coefficient signs of the linear inequalities), so a vector kept "
+                                  "per algorithm / arity or computed once before the loop makes constraints watch the wrong bounds")
+                    continue
+                e = mine[0]
+                a0 = show_val(e.args[0]) if e.args and not isinstance(e.args[0], View) else repr(e.args[0]) if e.args else ""
+                a1 = (show_val(e.args[1]) if not isinstance(e.args[1], View) else repr(e.args[1])) if len(e.args) > 1 else ""
+                ok_alg = f"[{idx}, 1]" in (e.name or "")
+                ok_n = f"{idx}(0)" in a0 or f"[{idx}, 0]" in a0
+                ok_p = f"[{idx}, 2]" in a1
+                if ok_alg and ok_n and ok_p:
+                    ctx.ok("R-TRIGGER-JOIN", "Problem.init: the column of constraint p is filled from GET_TRIGGERS[alg(p)](arity(p), parameters(p)) asked in the same iteration",
+                           sample={"call": e.name, "args": [a0, a1]})
+                else:
+                    what = "algorithm" if not ok_alg else "number of variables" if not ok_n else "parameters"
+                    ctx.violation("R-TRIGGER-JOIN", fn.path, "Problem.init", f"triggers-foreign-{what.split()[0]}", f"{fn.path}:{e.line}",
+                                  f"the trigger function asked for constraint p is not given p's own {what} ({e.name}({a0}, {a1})): the wake-up events stored in "
+                                  "p's column are those of another constraint")
     return n
 
 
